@@ -12,6 +12,10 @@ import (
 // fires on its own while a harness steps the stack; the harness expires them explicitly.
 const verifTimerScale = 1000
 
+// verifStretch stretches a duration used with time.AfterFunc / Timer.Reset outside the timer type (the handshake's
+// SYN retransmission, the reset after close), so that these do not fire on their own under a harness either.
+func verifStretch(d time.Duration) time.Duration { return d * verifTimerScale }
+
 type timerVerif struct {
 	lastD time.Duration // the duration the timer was last armed with (unscaled)
 }
